@@ -254,24 +254,40 @@ Example C17_backend_never_beyond_limit_nonvacuous :
   consumer_reads 3 [1;2;3;4;5]%N [2;1;5]%nat true [4;4;4;4]%nat = ([1;2;3]%N, Some TooLarge).
 Proof. vm_compute. reflexivity. Qed.
 
-(* "whenever the reader reports too-large the client sees 413" is FALSE of the code: *)
-Theorem C17_too_large_is_413_refuted :
-  exists k clf bs, bs = 200 /\ consumer_status k clf (Some TooLarge) bs <> 413.
-Proof. exact too_large_is_413_refuted. Qed.
-Print Assumptions C17_too_large_is_413_refuted.
+(* FULL strength: whenever the reader reports too-large the client sees 413 — for every consumer
+   the model covers (streaming proxy, proxy buffering for retries, fastcgi) and both framings
+   (F-C17-4/5/6 repaired: casket bdcc677, c877bef, e7d21d5) *)
+Theorem C17_too_large_is_413 :
+  forall k clf bs, consumer_status k clf (Some TooLarge) bs = 413.
+Proof. exact too_large_is_413. Qed.
+Print Assumptions C17_too_large_is_413.
 
-(* it holds for a proxied upload, streamed or buffered, with or without Content-Length ... *)
-Theorem C17_too_large_is_413_partial :
-  forall k clf bs, k <> Fastcgi -> consumer_status k clf (Some TooLarge) bs = 413.
-Proof. exact too_large_is_413_partial. Qed.
-Print Assumptions C17_too_large_is_413_partial.
-
-(* ... and nowhere else (fastcgi relays the responder's own status) *)
+(* ... and 413 has no other source than the too-large error or the backend's own answer *)
 Theorem C17_too_large_status_table :
-  forall k clf bs, consumer_status k clf (Some TooLarge) bs = 413 <->
-    k <> Fastcgi \/ bs = 413.
+  forall k clf e bs, consumer_status k clf e bs = 413 <-> e = Some TooLarge \/ bs = 413.
 Proof. exact too_large_status_table. Qed.
 Print Assumptions C17_too_large_status_table.
+
+(* end to end: a consumer that reads the limited body to its end answers 413 exactly for bodies over
+   the limit, having received exactly the first [limit] bytes; a body within the limit arrives
+   whole and the backend's own status is relayed *)
+Theorem C17_upload_status :
+  forall limit (body : list N) script eofd bufs k clf bs d e,
+  0 <= limit ->
+  (forall m, In m bufs -> (1 <= m)%nat) -> (forall j, In j script -> (1 <= j)%nat) ->
+  (length body + 2 <= length bufs)%nat ->
+  consumer_reads limit body script eofd bufs = (d, e) ->
+  (limit < Z.of_nat (length body) -> d = firstn (Z.to_nat limit) body /\ consumer_status k clf e bs = 413) /\
+  (Z.of_nat (length body) <= limit -> d = body /\ consumer_status k clf e bs = bs).
+Proof. exact upload_status. Qed.
+Print Assumptions C17_upload_status.
+
+Example C17_upload_status_nonvacuous :
+  consumer_reads 3 [1;2;3;4;5]%N [2;1;5]%nat true [4;4;4;4;4;4;4]%nat = ([1;2;3]%N, Some TooLarge) /\
+  consumer_status Fastcgi true (Some TooLarge) 200 = 413 /\
+  consumer_reads 5 [1;2;3;4;5]%N [2;1;5]%nat true [4;4;4;4;4;4;4]%nat = ([1;2;3;4;5]%N, Some EOF) /\
+  consumer_status Fastcgi true (Some EOF) 200 = 200.
+Proof. repeat split; vm_compute; reflexivity. Qed.
 
 (* ---- the listener's http.Server, all merged fields, as the loops are coded ---- *)
 (* each field is the strictest-value merge of ITS OWN column of the group (so the specs
